@@ -189,3 +189,107 @@ def u_cm2d(ctx):
     x = real("cM")
     ctx.prove("cM2d(x) == x / 100 (the float constant 0.01 is read as 1/100)", [], sym._t(cM2d(x)) * 100 == x.t)
     ctx.prove("canary: cM2d(x) == x", [x.t != 0], sym._t(cM2d(x)) == x.t, expect="fail", timeout_ms=2000)
+
+
+# ---------------------------------------------------------------------------
+# the physical-position forms are the genetic-position forms of the interpolated positions ("sequential distances agree with the
+# pairwise ones", "crossover probabilities equal the map function of consecutive interpolated distances"): wiring contracts of the
+# thin wrappers gdist1p / gdist2p (both map classes) and rprob1g / rprob2g / rprob1p / rprob2p (both map functions)
+@unit(P, "A1[gdist1p/gdist2p == gdist1g/gdist2g(chr, interp_genpos(chr, phys), window); rprob* == mapfn(gdist*)]", "A1", targets=[
+    GM + "StandardGeneticMap.py:StandardGeneticMap.gdist1p", GM + "StandardGeneticMap.py:StandardGeneticMap.gdist2p",
+    GM + "ExtendedGeneticMap.py:ExtendedGeneticMap.gdist1p", GM + "ExtendedGeneticMap.py:ExtendedGeneticMap.gdist2p",
+    GM + "HaldaneMapFunction.py:HaldaneMapFunction.rprob1p", GM + "KosambiMapFunction.py:KosambiMapFunction.rprob1p"])
+def u_wrappers(ctx):
+    import importlib
+    from pyvc import oarr, loopcut
+    from pyvc.oarr import OArr, same
+    from pyvc.sym import cur, fresh_int
+    ctx.trust("interp_genpos / gdist1g / gdist2g / mapfn stand for their contracts (their own units); opaque arrays")
+    ex = ctx.explorer()
+
+    def thunk():
+        e = cur()
+        for cname in ("StandardGeneticMap", "ExtendedGeneticMap"):
+            cls = getattr(importlib.import_module("pybrops.popgen.gmap." + cname), cname)
+            for meth, nwin in (("gdist1p", 2), ("gdist2p", 4)):
+                for windowed in (False, True):
+                    p = fresh_int("p", 0)
+                    chr_, phy = OArr.fresh("chr", (p,), "int64"), OArr.fresh("phy", (p,), "int64")
+                    win = tuple(fresh_int("w%d" % k, 0) for k in range(nwin)) if windowed else (None,) * nwin
+                    calls = []
+                    me = loopcut.stub_of(cls)
+
+                    def interp_genpos(c, ph, *a, **kw):
+                        calls.append(("interp_genpos", c, ph, a, kw))
+                        me.gp = OArr.fresh("genpos", (c.shape[0],), "float64")
+                        return me.gp
+
+                    def gd(kind):
+                        def f(c, g, *a, **kw):
+                            calls.append((kind, c, g, a, kw))
+                            me.d = OArr.fresh("gdist", (fresh_int("m", 0),), "float64")
+                            return me.d
+                        return f
+                    me.interp_genpos, me.gdist1g, me.gdist2g = interp_genpos, gd("gdist1g"), gd("gdist2g")
+                    out = getattr(cls, meth)(me, chr_, phy, *win)
+                    n = "%s.%s%s:" % (cname, meth, "[window]" if windowed else "")
+                    e.prove(n + "positions := interp_genpos(ALL chr, ALL phys)", len(calls) >= 1 and calls[0][0] == "interp_genpos"
+                            and same(calls[0][1], chr_) and same(calls[0][2], phy) and not calls[0][3] and not calls[0][4])
+                    tgt = meth[:-1] + "g"
+                    names = ("ast", "asp") if nwin == 2 else ("rst", "rsp", "cst", "csp")
+
+                    def window_of(c):
+                        pos = list(c[3]) + [None] * (nwin - len(c[3]))
+                        for k, nm in enumerate(names):
+                            if nm in c[4]:
+                                pos[k] = c[4][nm]
+                        return tuple(pos)
+
+                    def same_w(a, b):
+                        return (a is None and b is None) or (a is not None and b is not None and sym._t(a).eq(sym._t(b)))
+                    ok = len(calls) == 2 and calls[1][0] == tgt
+                    e.prove(n + "distance := %s(ALL chr, interpolated positions, the caller's window)" % tgt,
+                            ok and same(calls[1][1], chr_) and same(calls[1][2], me.gp)
+                            and all(same_w(a, b) for a, b in zip(window_of(calls[1]), win)))
+                    e.prove(n + "returns that distance", ok and same(out, me.d))
+        for which in ("Haldane", "Kosambi"):
+            MF = getattr(importlib.import_module("pybrops.popgen.gmap.%sMapFunction" % which), "%sMapFunction" % which)
+            for meth, callee, gen in (("rprob1g", "gdist1g", True), ("rprob2g", "gdist2g", True),
+                                      ("rprob1p", "gdist1p", False), ("rprob2p", "gdist2p", False)):
+                p = fresh_int("p", 0)
+                chr_ = OArr.fresh("chr", (p,), "int64")
+                pos = OArr.fresh("pos", (p,), "float64" if gen else "int64")
+                calls, seen = [], {}
+
+                class GMap:
+                    pass
+                gm = GMap()
+
+                def mk(kind):
+                    def f(c, g, *a, **kw):
+                        calls.append((kind, c, g, a, kw))
+                        gm.d = OArr.fresh("gdist", (fresh_int("m", 0),), "float64")
+                        return gm.d
+                    return f
+                for k in ("gdist1g", "gdist2g", "gdist1p", "gdist2p"):
+                    setattr(gm, k, mk(k))
+                mf = loopcut.stub_of(MF)
+
+                def mapfn(d):
+                    seen["arg"] = d
+                    seen["out"] = OArr.fresh("r", d.shape, "float64")
+                    return seen["out"]
+                mf.mapfn = mapfn
+                out = getattr(MF, meth)(mf, gm, chr_, pos)
+                n = "%sMapFunction.%s:" % (which, meth)
+                e.prove(n + "distance := gmap.%s(chr, positions), whole arrays, no window" % callee,
+                        len(calls) == 1 and calls[0][0] == callee and same(calls[0][1], chr_) and same(calls[0][2], pos)
+                        and all(a is None for a in calls[0][3]) and all(v is None for v in calls[0][4].values()))
+                e.prove(n + "returns mapfn(that distance)", len(calls) == 1 and seen.get("arg") is gm.d and same(out, seen.get("out")))
+        return "ok"
+    with oarr.patched_numpy(), loopcut.patched_modules(["pybrops.*"]):
+        outs = ex.explore(thunk)
+    ctx.absorb(ex)
+    raised = [o for o in outs if isinstance(o, sym.Raised)]
+    ctx.record("wrappers:noraise", not raised, kind="noraise", detail="; ".join(repr(r) + r.tb[-700:] for r in raised[:1]))
+    ctx.record("wrappers:cover:returns", any(o == "ok" for o in outs), kind="cover")
